@@ -546,8 +546,15 @@ static void aggPrefix(int fn, int a, int b, int expand)
 	{
 		s[0] = (octet)a; s[1] = (octet)b;
 		if (fn == 5)
-		{
-			for (c = 1; c < 256; ++c) for (d = 1; d < 256; ++d) { s[2] = (octet)c; s[3] = (octet)d; aggAdd(&g, evalFn(fn, s, 4), (unsigned)(c + d)); }
+		{	/* (c, d) over representatives x representatives and over all c with d = '=' */
+			int i, j;
+			for (i = 0; i < 8; ++i) for (j = 0; j < 8; ++j) { c = b64Rep[i]; d = b64Rep[j]; s[2] = (octet)c; s[3] = (octet)d; aggAdd(&g, evalFn(fn, s, 4), (unsigned)(c + d)); }
+			for (c = 1; c < 256; ++c)
+			{
+				for (i = 0; i < 8 && b64Rep[i] != c; ++i);
+				if (i < 8) continue;
+				s[2] = (octet)c; s[3] = '='; aggAdd(&g, evalFn(fn, s, 4), (unsigned)(c + '='));
+			}
 		}
 		else
 		{
@@ -574,6 +581,7 @@ static void expandPrefix(int fn, int a, int b)
 		for (c = lo; c < 256; ++c) for (d = lo; d < 256; ++d)
 		{
 			s[2] = (octet)c; s[3] = (octet)d;
+			if (fn == 5) { int i, j; for (i = 0; i < 8 && b64Rep[i] != c; ++i); for (j = 0; j < 8 && b64Rep[j] != d; ++j); if (!((i < 8 && j < 8) || d == '=')) continue; }
 			if (len < 4 && d != lo) continue;
 			if (len < 3 && c != lo) continue;
 			if (fn == 0) doTLDec(s, len);
@@ -591,7 +599,7 @@ static int aggMain(int argc, char** argv)
 	for (i = 0; i <= 4; ++i) g_eb[i] = gbuf(fn <= 2 ? i : i + 1);
 	g_slot_base = g_slot;
 	if (strcmp(argv[1], "expand") == 0) { expandPrefix(fn, atoi(argv[3]), atoi(argv[4])); return 0; }
-	if (fn == 5) { for (a = 0; a < 8; ++a) for (b = 0; b < 8; ++b) aggPrefix(fn, b64Rep[a], b64Rep[b], 0); return 0; }
+	if (fn == 5) { for (a = 0; a < 8; ++a) for (b = 1; b < 256; ++b) aggPrefix(fn, b64Rep[a], b, 0); return 0; }
 	for (a = lo; a < 256; ++a) for (b = lo; b < 256; ++b) aggPrefix(fn, a, b, 0);
 	return 0;
 }
@@ -1031,7 +1039,7 @@ static void recApdu(int thorough)
 		{
 			memcpy(s, hdr, 4);
 			for (k = 0; k < len; ++k) s[4 + k] = al[(c >> (2 * k)) & 3];
-			snprintf(g_cls, sizeof g_cls, "tail%u-%02X%02X%02X%02X", (unsigned)len, len > 0 ? s[4] : 0, len > 1 ? s[5] : 0, len > 2 ? s[6] : 0, len > 3 ? s[7] : 0);
+			snprintf(g_cls, sizeof g_cls, "tail%u/%02X%02X%02X%02X", (unsigned)len, len > 0 ? s[4] : 0, len > 1 ? s[5] : 0, len > 2 ? s[6] : 0, len > 3 ? s[7] : 0);
 			doCmdDec(s, 4 + len);
 		}
 	}
